@@ -1057,7 +1057,8 @@ def run_model(ck, items, prefix):
     """items: list of (term, info).  Returns list of mismatching items, or None after reporting."""
     if not items:
         return []
-    nsh = 16 if len(items) >= 64 else 4
+    # at most ~250 cases per coqc process (16 run at a time): a process holding 1200 cases needed > 4 GB
+    nsh = max(16, (len(items) + 249) // 250) if len(items) >= 64 else 4
     hdr = ("From Drummer.Model Require Import Base KVCodec KVSM KVSMRun.\n"
            "Definition cases : list bool := [\n")
     shards = [items[i::nsh] for i in range(nsh)]
